@@ -149,6 +149,12 @@ def run_prop(chk, replay, prop):
             counts[rule] = len(grp)
             chk.rng.shuffle(grp)
             fragile += grp[:cap // 6]
+    # ... and the redirections onto the header of another box (told only by comparing index ranges), for the far index spaces
+    redirects = [s for s in scenarios if T.is_redirect(s)] if prop in ("C04", "C20") else []
+    chk.rng.shuffle(redirects)
+    redirects = redirects[:cap // 12]
+    redirect_ids = set(id(s) for s in redirects)
+    fragile += redirects
     ids = set(id(s) for s in fragile)
     fragile = [s for i, s in enumerate(fragile) if id(s) not in set(id(x) for x in fragile[:i])]
     chosen = fragile + util.select([s for s in scenarios if id(s) not in ids], cap - len(fragile), chk.rng)
@@ -174,6 +180,11 @@ def run_prop(chk, replay, prop):
             style = {"far": True}             # recorded positions beyond 2**31 (a sparse box of zeros of more than 2 GiB in front)
         if prop == "C20" and not style and not (sc.get("applied") or []) and i % 3 == 0:
             style = {"hdrgeo": i // 3}        # geometry lines of the global header damaged (every line still parses)
+        if id(sc) in redirect_ids and not sc["opts"]["coords"] and i % 2 == 0:
+            style = {"ishift": "far"}
+        if prop in ("C04", "C20") and (not style or prop == "C20") and not sc["opts"]["coords"] and i % 3 == 1 and \
+                {a.get("k") for a in (sc.get("applied") or [])} & {"FodOffset", "FodFile", "CellHIdx", "FabIdx"}:
+            style = {"ishift": "far"}         # redirected boxes in an index space a hundred thousand cells from 0
         if i % 9 == 4 and not style:
             style = {"crowd": True}           # hundreds of further boxes in front of the modelled ones, in the same files
         cfgseed = chk.rng.randrange(1 << 30)
